@@ -152,6 +152,15 @@ func indirectUseSpecs() []specCase {
 			}
 		}
 	}
+	// a chain of bindings written directly in wire.Build: every binding of the chain contributes, whichever end is consumed
+	permutations(3, func(perm []int) {
+		for _, mask := range []int{1, 3, 5} {
+			perm, mask := perm, mask
+			g := &GraphSpec{}
+			g.custom = func(b *ir.Builder) *ir.Program { return chainBindProgram(2, mask, perm, 0) }
+			out = append(out, specCase{fmt.Sprintf("C08/indirect/bind-chain/consumers=%b/perm=%v", mask, perm), g})
+		}
+	})
 	return out
 }
 
